@@ -159,7 +159,10 @@ class TapExecutor(Executor):
         w.rec("tap_submit", tap=self.name, fn=getattr(fn, "name", None))
         f = self.inner.submit(fn, *args, **kwargs)
         self.futs.append(f)
-        w.rec("tap_submitted", tap=self.name, fn=getattr(fn, "name", None), idx=len(self.futs) - 1)
+        idx = len(self.futs) - 1
+        w.rec("tap_submitted", tap=self.name, fn=getattr(fn, "name", None), idx=idx)
+        tname, fname = self.name, getattr(fn, "name", None)
+        f.add_done_callback(lambda _f: w.rec("tap_done", tap=tname, fn=fname, idx=idx, cancelled=_f.cancelled()))
         return f
 
     def shutdown(self, wait=True, **kwargs):
@@ -525,7 +528,7 @@ class World(object):
                 if k in spec:
                     kw[k] = spec[k]
             if "base" in spec:
-                b = [EXC[x] for x in spec["base"]]
+                b = [EXC.get(x) or {"Exception": Exception, "ValueError": ValueError}[x] for x in spec["base"]]
                 kw["exception_base"] = b[0] if spec.get("base_single") and len(b) == 1 else b
             return RecExceptionPolicy(self, name, **kw)
         if spec["type"] == "script":
